@@ -20,11 +20,148 @@ type lifeRef struct {
 	maybe map[uint64]bool
 }
 
+// runDKGLifecycleConcurrent sends 2-4 lifecycle messages for one account to one instance at the same time
+// (after a complete prepare/execute round, so that a commit can succeed) and requires the outcomes to be
+// explainable by processing them one at a time in some order compatible with their real-time order.
+func runDKGLifecycleConcurrent(t *testing.T, rc *RunCtx) {
+	ch := rc.Ch
+	s := NewSched(rc, SchedCfg{StayBias: []float64{0, 0.5}[ch.Pick(2, 0)], MaxSteps: 20000})
+	defer s.Close()
+	c := NewCluster(t, rc, s, ClusterCfg{IDs: []uint64{1, 2, 3}})
+	defer c.Close()
+	co := &coordinator{c: c}
+	nodes := c.Nodes
+	coord := nodes[0].Name
+	acct := "Wallet 3/life-x"
+	const th = 2
+	executed := ch.Pick(4, 0) > 0
+	for _, n := range nodes {
+		if err := co.prepare(n, coord, acct, th, nodes); err != nil {
+			rc.Violate("HARNESS", "setup-failed", err.Error(), 0)
+			return
+		}
+	}
+	if executed {
+		for _, n := range nodes {
+			if err := co.execute(n, coord, acct); err != nil {
+				rc.Violate("HARNESS", "setup-failed", err.Error(), 0)
+				return
+			}
+		}
+	}
+	target := nodes[ch.Pick(3, 0)]
+	k := 2 + ch.Pick(3, 0)
+	kinds := make([]string, k)
+	oks := make([]bool, k)
+	tasks := make([]*Task, k)
+	for i := range kinds {
+		kinds[i] = []string{"commit", "abort", "prepare", "commit", "abort"}[ch.Pick(5, 0)]
+		i := i
+		tasks[i] = s.Spawn(kinds[i], target.Inst, func(_ *Task) {
+			var err error
+			switch kinds[i] {
+			case "commit":
+				_, err = co.commit(target, coord, acct)
+			case "abort":
+				err = co.abort(target, coord, acct)
+			case "prepare":
+				err = co.prepare(target, coord, acct, th, nodes)
+			}
+			oks[i] = err == nil
+		})
+	}
+	if o := s.Run(); o != "done" {
+		rc.Truncated = o == "truncated"
+		return
+	}
+	if p := c.anyPanic(); p != "" {
+		rc.Violate("C17", "panic", p, s.Step)
+		return
+	}
+	// Reference: active flag; commit needs every participant's contribution (true iff the round was executed).
+	type st struct{ active, complete bool }
+	apply := func(x st, kind string) (st, bool) {
+		switch kind {
+		case "prepare": // a new session holds nobody's contribution yet
+			if x.active {
+				return x, false
+			}
+			return st{true, false}, true
+		case "abort":
+			if !x.active {
+				return x, false
+			}
+			return st{false, false}, true
+		default: // commit
+			if !x.active || !x.complete {
+				return x, false
+			}
+			return st{false, false}, true
+		}
+	}
+	idx := make([]int, k)
+	for i := range idx {
+		idx[i] = i
+	}
+	explained := false
+	var permute func(n int)
+	permute = func(n int) {
+		if explained {
+			return
+		}
+		if n == k {
+			// respect real-time order
+			pos := make([]int, k)
+			for p, i := range idx {
+				pos[i] = p
+			}
+			for a := 0; a < k; a++ {
+				for b := 0; b < k; b++ {
+					if tasks[a].ReturnStep < tasks[b].InvokeStep && pos[a] > pos[b] {
+						return
+					}
+				}
+			}
+			x := st{true, executed}
+			for _, i := range idx {
+				var ok bool
+				x, ok = apply(x, kinds[i])
+				if ok != oks[i] {
+					return
+				}
+			}
+			explained = true
+			return
+		}
+		for i := n; i < k; i++ {
+			idx[n], idx[i] = idx[i], idx[n]
+			permute(n + 1)
+			idx[n], idx[i] = idx[i], idx[n]
+		}
+	}
+	permute(0)
+	desc := ""
+	for i := range kinds {
+		desc += fmt.Sprintf("%s[%d,%d]=%v ", kinds[i], tasks[i].InvokeStep, tasks[i].ReturnStep, oks[i])
+	}
+	rc.Logf("concurrent lifecycle on %s (executed=%v): %s", target.Name, executed, desc)
+	rc.Stats.Inc("life_concurrent_histories", 1)
+	rc.Stats.Seen("cases", "conc/"+desc)
+	if !explained {
+		rc.Violate("C17", "concurrent-messages-not-serializable", fmt.Sprintf("messages for one account sent to %s at the same time (round executed=%v) ended as %s- no one-at-a-time order of them gives these outcomes", target.Name, executed, desc), s.Step)
+	}
+	rc.Sample = map[string]any{"concurrent_lifecycle": desc, "executed": executed}
+}
+
 // runDKGLifecycle is the body of C17.
 func runDKGLifecycle(t *testing.T, rc *RunCtx) {
 	bls.SetRandFunc(newSeedReader(rc.Seed))
 	defer bls.SetRandFunc(nil)
 	ch := rc.Ch
+	if ch.Pick(4, 0) == 3 {
+		runDKGLifecycleConcurrent(t, rc)
+		return
+	}
 	timeouts := []time.Duration{time.Millisecond, time.Second, 70 * time.Second, 10 * time.Minute}
 	timeout := timeouts[ch.Pick(len(timeouts), 0)]
 	s := NewSched(rc, SchedCfg{MaxSteps: 20000})
